@@ -191,6 +191,26 @@ func VerifC18Lifecycle() {
 				nd.Assert(vIsNotFound(err), "C18-clear-missing-is-not-found")
 			}
 		case 3:
+			if nd.Choice("with-throughput", 2) == 1 {
+				// UpdateTable that creates the index and states its throughput: what a provisioned table needs
+				_, err := c.UpdateTable(vCtx, &dynamodb.UpdateTableInput{TableName: aws.String(name),
+					AttributeDefinitions: []types.AttributeDefinition{{AttributeName: aws.String("g"), AttributeType: types.ScalarAttributeTypeS}},
+					GlobalSecondaryIndexUpdates: []types.GlobalSecondaryIndexUpdate{{Create: &types.CreateGlobalSecondaryIndexAction{IndexName: aws.String("late"),
+						KeySchema:             []types.KeySchemaElement{{AttributeName: aws.String("g"), KeyType: types.KeyTypeHash}},
+						Projection:            &types.Projection{ProjectionType: types.ProjectionTypeAll},
+						ProvisionedThroughput: &types.ProvisionedThroughput{ReadCapacityUnits: aws.Int64(1), WriteCapacityUnits: aws.Int64(1)}}}}})
+				switch {
+				case !exists:
+					nd.Assert(vIsNotFound(err), "C18-updatetable-missing-is-not-found")
+				case m.provisioned:
+					nd.Reach("add-index-provisioned")
+					nd.Assert(err == nil, "C18-create-index-with-throughput-on-provisioned-table-noerr")
+					m.indexes["late"] = true
+				case err == nil:
+					m.indexes["late"] = true
+				}
+				break
+			}
 			err := AddIndex(vCtx, c, name, "late", "g", "")
 			if exists && m.provisioned {
 				// the AddIndex helper gives no throughput, which a provisioned table requires for its indexes
